@@ -128,6 +128,9 @@ class Harness(cm.BaseB):
                                 yield {"k": "arg", "op": op, "via": via, "what": "pos", "grid": grid, "site": site, "arm": arm}
                     for lc in ("", "Water free dispense", "a;b", "x" * 40):
                         yield {"k": "arg", "op": op, "via": via, "what": "lc", "lc": lc}
+                    # labware with more than 99 columns: column numbers of different length
+                    for wells in (["A10", "B100"], ["A110", "B11"], ["A101", "B102"], ["A100", "B100"], ["A12", "B120"], ["A120", "B120"], ["A09", "B90"]):
+                        yield {"k": "wide", "op": op, "via": via, "wells": wells}
                     # a worklist with a large max_volume: per-tip volumes that differ only in the last emitted digit
                     for wells in (["A01", "B01"], ["B01", "A01"]):
                         for tips in ([1, 2], [2, 1]):
@@ -216,6 +219,27 @@ class Harness(cm.BaseB):
         if bad:
             V.append(("C13/command-disagrees-with-tracking", f"{op}({lwn}, wells={block} as {case['layout']}-ordered 2-D array, tips={tips}, volumes {case['vk']} {vlist}) -> {recs}: (command, tracked, requested) change per well {bad}"))
         return "block:ok", repr(case), V
+
+    def one_wide(self, case):
+        op, wells = case["op"], case["wells"]
+        lw = rt.Labware("L", 2, 120, min_volume=0, max_volume=5000, initial_volumes=500.0)
+        geo = Geo("L", "plate", 2, 120, 0, 5000)
+        exc, recs, before, after = self.execute(op, case["via"], lw, geo, wells, [1, 2], [10.0, 12.5])
+        one_column = len({int(w[1:]) for w in wells}) == 1
+        if exc is not None:
+            return "wide:refused", repr(case), ([("C13/expressible-call-rejected", f"{op}(wells={wells}) on a 2 x 120 plate raised {type(exc).__name__}: {exc}")] if one_column else [])
+        if not one_column:
+            return "wide:accepted", repr(case), [("C13/inexpressible-call-accepted", f"{op}(wells={wells}) on a 2 x 120 plate names wells of several columns and was accepted: {recs}")]
+        init = {c: (Fraction(float(before[c])), {}) for c in geo.real_wells()}
+        robot = Robot("evo", {"L": geo}, {"L": init}, wl_max=MAXV, site_map={(30, 1): "L"})
+        p, issues = robot.feed(recs[0])
+        V = [("C13/command-not-executable", f"{case} -> {recs[0]!r}: {t} {d}") for t, d in issues if t not in ("negative", "below_min", "above_max")]
+        sign = -1 if op == "evo_aspirate" else 1
+        for w, v in zip(wells, [10.0, 12.5]):
+            c = geo.real(w)
+            if abs((robot.vol["L"][c] - init[c][0]) - sign * Fraction(v)) > Fraction(5, 1000):
+                V.append(("C13/command-disagrees-with-tracking", f"{op}(wells={wells}) on a 2 x 120 plate: the command changes {w} by {float(robot.vol['L'][c] - init[c][0])}"))
+        return "wide:ok", repr(case), V
 
     def one_alt(self, case):
         cm.clear_caches()
